@@ -526,7 +526,7 @@ func c08lookup(c *an.Ctx) {
 								for _, enc := range an.EnclosingStmts(el, as) {
 									if is, isIf := enc.(*ast.IfStmt); isIf && hasVar != nil {
 										s := strings.ReplaceAll(an.Str(is.Cond), " ", "")
-										if s == hasVar.Name()+"==false" || s == "!"+hasVar.Name() {
+										if s == an.RoleOf(hasVar)+"==false" || s == "!"+an.RoleOf(hasVar) {
 											nodeGuardOK = true
 										}
 									}
@@ -706,9 +706,9 @@ func c08params(c *an.Ctx) {
 						// nearest enclosing definition wins: pick the one in the same loop
 						for _, enc := range an.EnclosingStmts(f, as) {
 							if fs, ok := enc.(*ast.ForStmt); ok && fs.Pos() <= d.Pos() && d.End() <= fs.End() {
-								if strings.Contains(ds, yieldParam.Name()+".List[") {
+								if strings.Contains(ds, an.RoleOf(yieldParam)+".List[") {
 									list = "yield"
-								} else if strings.Contains(ds, blockParam.Name()+".List[") {
+								} else if strings.Contains(ds, an.RoleOf(blockParam)+".List[") {
 									list = "block"
 								}
 							}
@@ -783,7 +783,7 @@ func c08params(c *an.Ctx) {
 		why := ""
 		if header != "" {
 			okHdr := false
-			for _, lst := range []string{blockParam.Name(), yieldParam.Name()} {
+			for _, lst := range []string{an.RoleOf(blockParam), an.RoleOf(yieldParam)} {
 				if header == "i<len("+lst+".List)" {
 					okHdr = true
 				}
